@@ -97,11 +97,14 @@ def parse(line):
         return None
     task, comp, fin = line.split('|')
     cs = []
+    cstep = {}
     for c in comp.split():
         i, rest = c[1:].split(':', 1)
         cl, t = rest.split('@')
+        t, _, k = t.partition('#')
         cs.append((int(i), cl, int(t)))
-    return {'task': task.split(), 'comp': cs, 'done': fin.strip().startswith('done')}
+        cstep.setdefault(int(i), int(k) if k else -1)
+    return {'task': task.split(), 'comp': cs, 'cstep': cstep, 'done': fin.strip().startswith('done')}
 
 
 MODEL_OK = True      # set to False by a check when the model does not compile (e.g. a Gen table could not be regenerated):
@@ -199,11 +202,14 @@ def spec_failures(case, line):
         bad.append('C11.wire-order-differs-from-submission-order')
     # C11/C12: what completes a request
     wire_of = {}
+    wire_step = {}
     for t in wires:
         if t[0] == 'w':
             tx = int(t[1:t.index(':')])
             i, at = t[t.index(':') + 1:].split('@')
+            at, _, k = at.partition('#')
             wire_of[int(i)] = (tx, int(at))
+            wire_step[int(i)] = int(k) if k else -1
     # time line of the script
     now = 0
     frames = []          # (time, tx, kind) of completed frames
@@ -264,6 +270,49 @@ def spec_failures(case, line):
                 c = comp_of.get(st[1])
                 if c is None or c[2] != now or c[1] not in ('NoConnection', 'Shutdown'):
                     bad.append('C13.request-not-failed-at-once-while-not-connected')
+    # C05 / C12 "a timed-out request leaves the connection usable": the script language can only deliver garbage through a
+    # G step; without one EVERY byte delivered on a connection is part of a well-formed frame (F, or P followed by Q), so
+    # the reader must never report a framing error - whatever deadlines passed in between
+    if not any(st[0] == 'G' for st in script):
+        if any(t.startswith('eBadFrame') for t in p['task']) or any(c[1] == 'BadFrame' for c in p['comp']):
+            bad.append('C12.framing-error-although-every-byte-belongs-to-a-well-formed-frame')
+    # C11 / C12: a request answered in time by a complete frame with its transaction id completes with that frame's result.
+    # Wire and completion entries carry the index of the script step during which they happened, so "the frame was
+    # delivered after the request was written and before it completed" is read off the log, not guessed from equal instants.
+    now = 0
+    part = None
+    answered = set()
+    for j, st in enumerate(script):
+        if st[0] == 'T':
+            now += st[1]
+            continue
+        fr = None
+        if st[0] == 'P':
+            part = (st[1], st[2]) if part is None else 'unknown'
+        elif st[0] == 'Q':
+            if isinstance(part, tuple):
+                fr = part
+            part = None
+        elif st[0] == 'F' and part is None:
+            fr = (st[1], st[2])
+        elif st[0] == 'CO':
+            part = None if part is None else 'unknown'       # the partial frame may or may not have died with its connection
+        if fr is None or len(set(submitted)) != len(submitted):
+            continue
+        for i, (tx, at) in wire_of.items():
+            if tx != fr[0] or i in answered or wire_step.get(i, -1) < 0:
+                continue
+            if not (wire_step[i] < j and now < fires_at(at + kinds[i][3])):
+                continue                                          # not yet written / already past its timer instant
+            cs = p['cstep'].get(i)
+            if cs is not None and 0 <= cs < j:
+                continue                                          # completed by an earlier step
+            if not any(a <= at and (b is None or now <= b) for a, b in intervals):
+                continue                                          # not (certainly) the same connection
+            answered.add(i)
+            c = comp_of.get(i)
+            if c is None or c[1] != cls_of[fr[1]] or c[2] != now or cs != j:
+                bad.append('C11.request-answered-in-time-does-not-complete-with-its-reply')
     # C10: Shutdown is only reported when the task is gone, or when the submitting try_send itself was rejected
     if not p['done']:
         for i, c, t in p['comp']:
@@ -569,6 +618,8 @@ def judge(ctx, prop, cases, impl, model, clause_prefixes=None):
             return [(bool(spec_failures(x, a)) if want else (a != b)) for x, a, b in zip(xs, ii, mm)]
         small = vlib.shrink_batch(c, still, shrink_candidates)
         si, sm = run_both(ctx, [small], shards=1)
+        if not MODEL_OK:
+            sm = ['(model unavailable: a Gen table could not be regenerated from the source)']
         sf = spec_failures(small, si[0])
         key = (sf[0] if sf else 'model-differs-from-impl')
         what = (f'script {to_line(small)}: ' + (f'the implementation log violates {", ".join(sf)}' if sf else
